@@ -125,6 +125,8 @@ def expected_flows(b, spec):
                 local = 'DEM_' + (srv.Code if c['role'] == 'single' else srv.FullCode)
                 add(gk, -1, vn(b, gkey, grole, local), cur)
                 add(bus, +1, srv.GetVariableName('SUP_' + b.sectors[bus].FullCode), cur)
+                if c['second_market'].get('hh_share'):
+                    add(hh, -1, vn(b, ck, 'HH', 'DEM_' + srv.Code), cur)
             if c.get('custom'):
                 g_name = vn(b, ck, 'DONOR', 'GRANT')
                 add((ck, 'DONOR'), -1, g_name, cur)
@@ -248,8 +250,12 @@ def check_markets(J, b, spec):
                 sc = srv.Code
                 sdem, ssup = srv.GetVariableName('DEM_' + sc), srv.GetVariableName('SUP_' + sc)
                 glocal = 'DEM_' + (sc if c['role'] == 'single' else srv.FullCode)
+                dnames2 = [vn(b, gkey, grole, glocal)]
+                if c['second_market'].get('hh_share'):
+                    dnames2.append(vn(b, ck, 'HH', 'DEM_' + sc))
+                    J.count('second_market_with_household_buyer.judged')
                 J.equal_series('market_demand_not_sum_of_declared_demands', sdem, lambda k, n=sdem: J.v(n, k),
-                               lambda k, n=vn(b, gkey, grole, glocal): J.v(n, k), k_from=1, ctx={'market': srv.FullCode})
+                               lambda k, ns=tuple(dnames2): sum(J.v(n, k) for n in ns), k_from=1, ctx={'market': srv.FullCode})
                 J.equal_series('market_supply_not_equal_demand', ssup, lambda k, n=ssup: J.v(n, k),
                                lambda k, n=sdem: J.v(n, k), k_from=1, ctx={'market': srv.FullCode})
                 J.equal_series('supplier_amounts_do_not_add_up_to_supply', ssup,
